@@ -122,7 +122,17 @@ class Machine:
             n = c.get("stat", 0)
             if n <= 0:
                 return None
-            return {"op": op_i, "kind": kind, "at": s.below(n), "errno": s.choice([_errno.ENOENT, _errno.EACCES])}
+            # mostly the stat of a file the operation goes on to read (an input: its existence / size test), and
+            # mostly an error that does not mean "there is no such file"
+            read_paths = {e[1] for e in ev if e[0] == "open_r"}
+            ordinals, j = [], 0
+            for e in ev:
+                if e[0] == "stat":
+                    if e[1] in read_paths:
+                        ordinals.append(j)
+                    j += 1
+            at = s.choice(ordinals) if ordinals and s.chance(0.7) else s.below(n)
+            return {"op": op_i, "kind": kind, "at": at, "errno": s.choice([_errno.ENOENT, _errno.EACCES, _errno.EACCES, _errno.EIO])}
         return None
 
     DIRTY_VARIANTS = [None, None, None, "tail", "tail", "cut", "junk_longer", "same_len"]
@@ -208,9 +218,47 @@ def violation(prop, clause, op_i, detail, *, cls="oracle", site=None, tags=()):
             "tags": sorted(tags)}
 
 
+def _perturb_heap(salt):
+    """Objects allocated (and partly kept) before a run so that the allocator's free lists - hence which freed address
+    the tool's next object gets - differ between attempts.  A defect that depends on `id()` / address reuse shows in
+    some heap states only; the salt makes 'another heap state' a seeded, repeatable choice."""
+    if not salt:
+        return None
+    s = Stream(int(salt), "heap")
+    # the phase of the cyclic garbage collector (allocations since the last collection) is inherited from whichever
+    # process forked this run; shifting it moves every automatic collection, i.e. the moments at which objects in
+    # reference cycles - and the dicts they own - are freed
+    keep = [[] for _ in range(s.randint(0, 699))]
+    for _ in range(s.randint(50, 600)):
+        k = s.below(5)
+        obj = ({} if k == 0 else [None] * s.randint(0, 40) if k == 1 else bytes(s.randint(0, 600)) if k == 2
+               else {"a": 1, "b": [2]} if k == 3 else "x" * s.randint(1, 300))
+        if s.chance(0.5):
+            keep.append(obj)
+    return keep
+
+
+def _churn_heap(s, ballast):
+    """Between two operations: free part of the ballast in a seeded order, allocate new containers, sometimes collect
+    garbage - the order of the allocator's free lists, i.e. *which* freed address the tool's next dict or list gets,
+    changes with the salt."""
+    import gc
+
+    ballast = list(ballast or [])
+    s.shuffle(ballast)
+    del ballast[: s.randint(0, len(ballast))]
+    fresh = [({} if s.chance(0.6) else []) for _ in range(s.randint(0, 120))]
+    s.shuffle(fresh)
+    del fresh[: s.randint(0, len(fresh))]
+    if s.chance(0.3):
+        gc.collect()
+    return ballast + fresh
+
+
 def execute_plan(machine: Machine, plan: dict, prop: str, keep_trace=False) -> dict:
     """Run one plan in the current process; returns a picklable result."""
     swarm = dict(plan["swarm"])
+    _heap_ballast = _perturb_heap(plan.get("heap_salt"))  # noqa: F841 - kept alive for the whole run
     if keep_trace:
         swarm["keep_trace"] = True
     host = _host.SimHost(plan["seed"], swarm)
@@ -222,7 +270,10 @@ def execute_plan(machine: Machine, plan: dict, prop: str, keep_trace=False) -> d
         faults_by_op = {}
         for f in plan.get("faults", []):
             faults_by_op.setdefault(f["op"], []).append(f)
+        churn = Stream(int(plan["heap_salt"]), "churn") if plan.get("heap_salt") else None
         for op in plan["ops"]:
+            if churn is not None:
+                _heap_ballast = _churn_heap(churn, _heap_ballast)
             fl = faults_by_op.get(op["i"], [])
             before = host.op_index
             vs = machine.step(host, model, op, fl, prop) or []
@@ -529,13 +580,23 @@ def run_batch(machine, prop, tier, verif_seed, budget_s, jobs, max_runs=None, ch
 # reporting
 
 
-def write_replay(prop, machine, seed, idx, plan, v, digest):
+ADDRESS_ATTEMPTS = 64
+
+
+def write_replay(prop, machine, seed, idx, plan, v, digest, address_dependent=False):
     os.makedirs(REPLAY_DIR, exist_ok=True)
-    path = os.path.join(REPLAY_DIR, f"{prop}-{seed}.json")
+    slug = "".join(ch if ch.isalnum() else "-" for ch in str(v["clause"]))[:48]
+    path = os.path.join(REPLAY_DIR, f"{prop}-{seed}-{slug}.json")  # one file per seed and clause
     doc = {"format": 1, "property": prop, "machine": machine.name, "clause": v["clause"], "seed": seed, "run": idx,
            "plan": plan, "expected": {"op": v["op"], "class": v["class"], "clause": v["clause"],
                                       "detail": v["detail"], "site": v.get("site"), "tags": v.get("tags", [])},
            "digest": "sha256:" + digest, "hashseed": os.environ.get("PYTHONHASHSEED", "random")}
+    if address_dependent:
+        # the violation depends on object addresses (id() reuse, address-based hashing, finaliser timing): whether it
+        # shows is a function of the heap state, which differs between processes.  The replay tries the recorded heap
+        # salt first and then salts 0..ADDRESS_ATTEMPTS-1, each in a fork; the run digest is not expected to match.
+        doc["address_dependent"] = True
+        doc["attempts"] = ADDRESS_ATTEMPTS
     with open(path, "w") as fh:
         json.dump(doc, fh, indent=1, default=_host._json_default)
     return path
@@ -546,8 +607,18 @@ def replay_file(machine, path, prop):
     with open(path) as fh:
         doc = json.load(fh)
     plan = doc["plan"]
-    res = run_once(machine, plan, prop, keep_trace=True)
     target = {"property": doc["property"], "clause": doc["expected"]["clause"], "class": doc["expected"]["class"]}
+    if doc.get("address_dependent"):
+        res = None
+        salts = [plan.get("heap_salt", 0)] + [x for x in range(int(doc.get("attempts", ADDRESS_ATTEMPTS))) if x != plan.get("heap_salt", 0)]
+        for n, salt in enumerate(salts):
+            res = run_once(machine, dict(plan, heap_salt=salt), prop, keep_trace=True)
+            v = same_violation(res, target)
+            if v is not None:
+                res["address_attempt"] = n + 1
+                return True, v, res["digest"], None, res
+        return False, None, res["digest"], None, res
+    res = run_once(machine, plan, prop, keep_trace=True)
     v = same_violation(res, target)
     same_digest = ("sha256:" + res["digest"]) == doc.get("digest")
     return v is not None, v, res["digest"], same_digest, res
@@ -593,9 +664,43 @@ def handle_violations(machine, prop, merged, shrink_budget=90.0, out=sys.stdout)
                     print(f"note: property={prop} seed={seed} clause={v['clause']}: seen once in a run using real library "
                           f"entropy, not reproducible by construction; looking for a seeded instance", file=out)
                     continue
-                print(f"HARNESS-NONDETERMINISM: property={prop} seed={seed} clause={v['clause']} did not reproduce", file=out)
-                harness_problem = True
-                continue
+                # not a function of the seed alone: before calling it a harness problem, see whether it is a function of
+                # the heap state (the tool keyed something on an object address)
+                found = None
+                t_addr = time.time()
+                for salt in range(1, ADDRESS_ATTEMPTS):
+                    if time.time() - t_addr > 150:
+                        break
+                    p2 = dict(plan, heap_salt=salt)
+                    try:
+                        res_a = run_once(machine, p2, prop)
+                    except HarnessError:
+                        continue
+                    if same_violation(res_a, v) is not None:
+                        found = (p2, res_a)
+                        break
+                if found is None:
+                    print(f"HARNESS-NONDETERMINISM: property={prop} seed={seed} clause={v['clause']} did not reproduce", file=out)
+                    harness_problem = True
+                    continue
+                p2, res_a = found
+                v_a = same_violation(res_a, v)
+                path = write_replay(prop, machine, seed, idx, p2, v_a, res_a["digest"], address_dependent=True)
+                proc = subprocess.run([sys.executable, "-m", "simhost.check", prop, "--replay", path], cwd=VERIF,
+                                      capture_output=True, text=True, timeout=1800, env=dict(os.environ))
+                if "REPRODUCED" not in proc.stdout:
+                    print(f"HARNESS-NONDETERMINISM: property={prop} seed={seed} clause={v['clause']} showed again with heap "
+                          f"salt {p2['heap_salt']} but not in a fresh process within {ADDRESS_ATTEMPTS} heap states", file=out)
+                    harness_problem = True
+                    continue
+                n_unlisted += 1
+                print(f"violation: property={prop} clause={v_a['clause']} class={v_a['class']} op={v_a['op']} site={v_a.get('site')} "
+                      f"tags={v_a.get('tags')} ops={len(plan['ops'])} (not shrunk) faults={len(plan.get('faults', []))} "
+                      f"address-dependent: the same seed shows it in some heap states only (object addresses are not behind "
+                      f"a seam); shown again with heap salt {p2['heap_salt']} and in a fresh process", file=out)
+                print(f"  detail: {v_a['detail']}", file=out)
+                print(f"VIOLATION property={prop} replay={path}", file=out)
+                break
             chosen = (idx, seed, plan, r, v)
             break
         if chosen is None:
@@ -615,15 +720,32 @@ def handle_violations(machine, prop, merged, shrink_budget=90.0, out=sys.stdout)
         proc = subprocess.run([sys.executable, "-m", "simhost.check", prop, "--replay", path], cwd=VERIF,
                               capture_output=True, text=True, timeout=600,
                               env=dict(os.environ))  # same PYTHONHASHSEED: a hash-seed dependent defect must replay
+        addr_note = ""
         if "REPRODUCED" not in proc.stdout:
-            print(f"HARNESS-NONDETERMINISM: property={prop} replay {path} did not reproduce in a fresh process:\n"
-                  f"{proc.stdout[-800:]}{proc.stderr[-800:]}", file=out)
-            harness_problem = True
-            continue
+            # repeatable in this process, not in a new one: the violation depends on the heap state (object addresses).
+            # The replay file is rewritten as address-dependent - first with the shrunk plan, then with the original
+            # one - and must then come back in a fresh process within ADDRESS_ATTEMPTS heap states.
+            ok_addr = False
+            for cand, vv, dg in ((small, v3, res3["digest"]), (plan, v, r["digest"])):
+                path = write_replay(prop, machine, seed, idx, cand, vv, dg, address_dependent=True)
+                proc = subprocess.run([sys.executable, "-m", "simhost.check", prop, "--replay", path], cwd=VERIF,
+                                      capture_output=True, text=True, timeout=1800, env=dict(os.environ))
+                if "REPRODUCED" in proc.stdout:
+                    ok_addr = True
+                    if cand is plan:
+                        small = plan
+                    break
+            if not ok_addr:
+                print(f"HARNESS-NONDETERMINISM: property={prop} replay {path} did not reproduce in a fresh process:\n"
+                      f"{proc.stdout[-800:]}{proc.stderr[-800:]}", file=out)
+                harness_problem = True
+                continue
+            addr_note = (" address-dependent: repeatable within one process, in a new process only in some heap states "
+                         "(object addresses are not behind a seam); the replay searches heap salts")
         n_unlisted += 1
         print(f"violation: property={prop} clause={v3['clause']} class={v3['class']} op={v3['op']} site={v3.get('site')} "
               f"tags={v3.get('tags')} ops={len(small['ops'])} (from {len(plan['ops'])}) faults={len(small.get('faults', []))} "
-              f"shrink-executions={tried}", file=out)
+              f"shrink-executions={tried}{addr_note}", file=out)
         print(f"  detail: {v3['detail']}", file=out)
         print(f"VIOLATION property={prop} replay={path}", file=out)
     return n_unlisted, len(reported_known), harness_problem
